@@ -123,34 +123,68 @@ def regSkip (name : Bytes) : Bool :=
 
 def fuelI : Nat := 64
 
-/-- the field walk of `registerComposer`; the second component is "panicked" -/
-def regFields (reg1 : Registry → GoType → Registry × Bool) : Registry → List (FieldHdr × GoType) → Registry × Bool
+/-! `GoType` has no derived `DecidableEq` (nested inductive): structural equality test for the
+repaired lookup (`c.rtype == rv.Type()`) -/
+mutual
+  def typeBeq : GoType → GoType → Bool
+    | .bool, .bool => true
+    | .int a, .int b => a == b
+    | .float a, .float b => a == b
+    | .str, .str => true
+    | .bytes, .bytes => true
+    | .iface, .iface => true
+    | .slice a, .slice b => typeBeq a b
+    | .array n a, .array m b => n == m && typeBeq a b
+    | .map a, .map b => typeBeq a b
+    | .ptr a, .ptr b => typeBeq a b
+    | .struct n p fs, .struct m q gs => n == m && p == q && fieldsBeq fs gs
+    | _, _ => false
+  def fieldsBeq : List (FieldHdr × GoType) → List (FieldHdr × GoType) → Bool
+    | [], [] => true
+    | (h, t) :: r, (g, u) :: s => h == g && typeBeq t u && fieldsBeq r s
+    | _, _ => false
+end
+
+/-- the result of `registerComposer`: the registry, the composer it returns, "panicked" -/
+structure RegOut where
+  reg : Registry
+  comp : Option Composer
+  panicked : Bool
+  deriving Inhabited
+
+/-- the field walk of `registerComposer` -/
+def regFields (reg1 : Registry → GoType → RegOut) : Registry → List (FieldHdr × GoType) → Registry × Bool
   | r, [] => (r, false)
   | r, (h, t) :: rest =>
     if regSkip h.name then regFields reg1 r rest
     else if (r.find (nameOf (elem1 t))).isSome then regFields reg1 r rest
     else
       match reg1 r (elem1 t) with
-      | (r', true) => (r', true)
-      | (r', false) => regFields reg1 r' rest
+      | ⟨r', _, true⟩ => (r', true)
+      | ⟨r', _, false⟩ => regFields reg1 r' rest
 
-/-- `registerComposer(rt, nil)`; errors ("only structs can be recomposed") change nothing -/
-def registerT : Nat → Registry → GoType → Registry × Bool
-  | 0, r, _ => (r, false)
+/-- `registerComposer(rt, nil)`; errors ("only structs can be recomposed") change nothing.
+`guard` is the repair: a composer found under the full name is only reused when it was made for
+this very type (struct literals all have the full name "/"). -/
+def registerT (guard : Bool) : Nat → Registry → GoType → RegOut
+  | 0, r, _ => ⟨r, none, false⟩
   | f + 1, r, t =>
     match derefT t with
     | .struct name pkg fs =>
-      match r.find (fullName name pkg) with
-      | some _ => (r, false)                              -- already registered: no walk
+      match (match r.find (fullName name pkg) with
+             | some c => if !guard || typeBeq c.rtype (.struct name pkg fs) then some c else none
+             | none => none) with
+      | some c => ⟨r, some c, false⟩                      -- already registered: no walk
       | none =>
         match indexType fuelI (.struct name pkg fs) with
-        | none => (r, true)                               -- indexType panics before anything is entered
+        | none => ⟨r, none, true⟩                         -- indexType panics before anything is entered
         | some im =>
-          regFields (registerT f)
-            ((r.set name ⟨name, fullName name pkg, .struct name pkg fs, im⟩).set (fullName name pkg)
-              ⟨name, fullName name pkg, .struct name pkg fs, im⟩)
-            fs.reverse
-    | _ => (r, false)
+          match regFields (registerT guard f)
+              ((r.set name ⟨name, fullName name pkg, .struct name pkg fs, im⟩).set (fullName name pkg)
+                ⟨name, fullName name pkg, .struct name pkg fs, im⟩)
+              fs.reverse with
+          | (r', p) => ⟨r', some ⟨name, fullName name pkg, .struct name pkg fs, im⟩, p⟩
+    | _ => ⟨r, none, false⟩
 
 /-! ## values -/
 
@@ -349,128 +383,147 @@ def stepFields (setv : Registry → JV → GoType → IdxEntry → Step) (t : Go
 
 def fuelZ : Nat := 64
 
-/-- which composer `recomp` uses for a struct type: the one under the bare name; with the repair only
-when it was made for this type (`c.full` is the full name of the type), else a fresh registration -/
+/-- Which composer `recomp` uses for a struct type: `c := r.composers[rv.Type().Name()]`, and when
+there is none `c, _ = r.registerComposer(rv.Type(), nil)`. With the repair (`bareName = false`) a
+composer found under the bare name counts only when it was made for this very type. -/
 def composerFor (bareName : Bool) (f : Nat) (r : Registry) (name pkg : Bytes) (fs : List (FieldHdr × GoType)) :
     Option Composer × Registry :=
   match (match r.find name with
-         | some c => if bareName || c.full = fullName name pkg then some c else none
+         | some c => if bareName || typeBeq c.rtype (.struct name pkg fs) then some c else none
          | none => none) with
   | some c => (some c, r)
   | none =>
-    match (if bareName then none else r.find (fullName name pkg)) with
-    | some c => (some c, r)
-    | none =>
-      match registerT f r (.struct name pkg fs) with
-      | (r', true) => (none, r')
-      | (r', false) => (r'.find (fullName name pkg), r')
+    match registerT (!bareName) f r (.struct name pkg fs) with
+    | ⟨r', _, true⟩ => (none, r')
+    | ⟨r', c, false⟩ => (c, r')
 
-/-- `recompAny`, `recomp`, `setValue` in one function: `mode` 0 = `recompAny(j)` (the result is what
-an `interface{}` slot holds; `t` is ignored), 1 = `recomp(j, reflect.New(t))` (a nil datum leaves the
-zero value), 2 = `setValue(j, slot of type t, sf)` / `recomp(j, rv)` on the slot itself -/
-def recompV (bareName : Bool) (ck : Bytes) : Nat → Registry → Nat → JV → GoType → Option IdxEntry → Step
-  | 0, r, _, _, _, _ => ⟨.outside, r⟩
-  | f + 1, r, mode, j, t, sf =>
-    if mode = 0 then
-      -- recompAny
-      match j with
-      | .null => ⟨.ok .nilIface, r⟩
-      | .bool b => ⟨.ok (.iface .bool (.bool b)), r⟩
-      | .int i => ⟨.ok (.iface (.int 4) (.int i)), r⟩
-      | .flt s => ⟨.ok (.iface (.float false) (.flt s)), r⟩
-      | .str s => ⟨.ok (.iface .str (.str s)), r⟩
-      | .arr xs =>
-        match stepList (fun r' x => recompV bareName ck f r' 0 x .iface none) r xs [] with
-        | ((some vs, _), r') => ⟨.ok (.iface (.slice .iface) (.slice vs)), r'⟩
-        | ((none, s), r') => ⟨s, r'⟩
-      | .obj kvs =>
-        -- `if cv := tv[r.CreateKey]; cv != nil { tn, _ := cv.(string); if c := r.composers[tn]; c != nil`
-        match (match jvLookup kvs ck with
-               | none => none
-               | some .null => none
-               | some (.str tn) => r.find tn
-               | some _ => r.find []) with
-        | some c =>
-          -- `rv := reflect.New(c.rtype); r.recomp(v, rv); return rv.Interface()`
-          match recompV bareName ck f r 2 j c.rtype none with
-          | ⟨.ok v, r'⟩ => ⟨.ok (.iface (.ptr c.rtype) (.ptr v)), r'⟩
-          | st => st
-        | none =>
-          match stepKvs (fun r' x => recompV bareName ck f r' 0 x .iface none) r kvs [] with
-          | ((some ms, _), r') => ⟨.ok (.iface (.map .iface) (.map ms)), r'⟩
-          | ((none, s), r') => ⟨s, r'⟩
-      | _ => ⟨.outside, r⟩
-    else if mode = 1 && isNull j then ⟨.ok (zeroVal fuelZ t), r⟩
-    else
-      match t with
-      | .iface =>
-        -- `v = r.recompAny(v); rv.Set(reflect.ValueOf(v))`: a nil datum panics
-        if isNull j then ⟨.panic, r⟩ else recompV bareName ck f r 0 j .iface none
-      | .ptr e =>
-        -- setValue: `ev := reflect.New(elem); r.recomp(v, ev); rv.Set(ev)`
-        match recompV bareName ck f r 1 j e none with
-        | ⟨.ok v, r'⟩ => ⟨.ok (.ptr v), r'⟩
-        | st => st
-      | .bytes =>
-        match j with
-        | .arr xs =>
-          match stepList (fun r' x => ⟨scalarSlot (.int 6) x none, r'⟩) r xs [] with
-          | ((some vs, _), r') => ⟨.ok (.bytes (vs.map fun v => match v with | .int i => i.toNat.toUInt8 | _ => 0)), r'⟩
-          | ((none, s), r') => ⟨s, r'⟩
-        | _ => ⟨.panic, r⟩
-      | .slice e =>
-        match j with
-        | .arr xs =>
-          -- pointer elements: `ev := reflect.New(et); r.recomp(va[i], ev)` (nil leaves a pointer to zero)
-          match stepList (fun r' x =>
-              match e with
-              | .ptr pe =>
-                match recompV bareName ck f r' 1 x pe none with
-                | ⟨.ok v, r''⟩ => ⟨.ok (.ptr v), r''⟩
-                | st => st
-              | _ => recompV bareName ck f r' 2 x e none) r xs [] with
-          | ((some vs, _), r') => ⟨.ok (.slice vs), r'⟩
-          | ((none, s), r') => ⟨s, r'⟩
-        | _ => ⟨.panic, r⟩
-      | .array n e =>
-        match j with
-        | .arr xs =>
-          match stepList (fun r' x => recompV bareName ck f r' 2 x e none) r (xs.take n) [] with
-          | ((some vs, _), r') => ⟨.ok (.arr (vs ++ List.replicate (n - vs.length) (zeroVal fuelZ e))), r'⟩
-          | ((none, s), r') => ⟨s, r'⟩
-        | _ => ⟨.panic, r⟩
-      | .map e =>
-        match j with
-        | .null => ⟨.ok .nilMap, r⟩
-        | .obj kvs =>
-          match e with
-          | .iface =>
-            -- `rv.SetMapIndex(k, reflect.ValueOf(r.recompAny(m)))`: a nil datum sets nothing
-            match stepKvs (fun r' x => recompV bareName ck f r' 0 x .iface none) r kvs [] with
-            | ((some ms, _), r') => ⟨.ok (.map (ms.filter fun kv => match kv.2 with | .nilIface => false | _ => true)), r'⟩
-            | ((none, s), r') => ⟨s, r'⟩
-          | .ptr pe =>
-            match stepKvs (fun r' x =>
-                match recompV bareName ck f r' 1 x pe none with
-                | ⟨.ok v, r''⟩ => ⟨.ok (.ptr v), r''⟩
-                | st => st) r kvs [] with
-            | ((some ms, _), r') => ⟨.ok (.map ms), r'⟩
-            | ((none, s), r') => ⟨s, r'⟩
-          | _ =>
-            match stepKvs (fun r' x => recompV bareName ck f r' 1 x e none) r kvs [] with
-            | ((some ms, _), r') => ⟨.ok (.map ms), r'⟩
-            | ((none, s), r') => ⟨s, r'⟩
-        | _ => ⟨.panic, r⟩
-      | .struct name pkg fs =>
-        match j with
-        | .obj vm =>
-          match composerFor bareName f r name pkg fs with
-          | (none, r') => ⟨.panic, r'⟩
-          | (some c, r') =>
-            stepFields (fun r'' m ft e => recompV bareName ck f r'' 2 m ft (some e)) (.struct name pkg fs) vm r' c.indexes
-              (zeroVal fuelZ (.struct name pkg fs))
-        | _ => ⟨.panic, r⟩
-      | _ => ⟨scalarSlot t j sf, r⟩
+/-- the recursive call: registry, mode, datum, type of the slot, the struct field the slot is.
+`mode` 0 = `recompAny(j)` (the result is what an `interface{}` slot holds; the type is ignored),
+1 = `recomp(j, reflect.New(t))` (a nil datum leaves the zero value), 2 = `setValue(j, slot, sf)` /
+`recomp(j, rv)` on the slot itself -/
+abbrev Rec := Registry → Nat → JV → GoType → Option IdxEntry → Step
+
+abbrev ComposerFor := Registry → Bytes → Bytes → List (FieldHdr × GoType) → Option Composer × Registry
+
+/-- `ev := reflect.New(et); r.recomp(x, ev)`: the slot receives the pointer (a nil datum leaves a
+pointer to the zero value) -/
+def ptrStep (rec : Rec) (r : Registry) (x : JV) (pe : GoType) : Step :=
+  match rec r 1 x pe none with
+  | ⟨.ok v, r'⟩ => ⟨.ok (.ptr v), r'⟩
+  | st => st
+
+/-- `recompAny` -/
+def recAny (ck : Bytes) (rec : Rec) (r : Registry) (j : JV) : Step :=
+  match j with
+  | .null => ⟨.ok .nilIface, r⟩
+  | .bool b => ⟨.ok (.iface .bool (.bool b)), r⟩
+  | .int i => ⟨.ok (.iface (.int 4) (.int i)), r⟩
+  | .flt s => ⟨.ok (.iface (.float false) (.flt s)), r⟩
+  | .str s => ⟨.ok (.iface .str (.str s)), r⟩
+  | .arr xs =>
+    match stepList (fun r' x => rec r' 0 x .iface none) r xs [] with
+    | ((some vs, _), r') => ⟨.ok (.iface (.slice .iface) (.slice vs)), r'⟩
+    | ((none, s), r') => ⟨s, r'⟩
+  | .obj kvs =>
+    -- `if cv := tv[r.CreateKey]; cv != nil { tn, _ := cv.(string); if c := r.composers[tn]; c != nil`
+    match (match jvLookup kvs ck with
+           | none => none
+           | some .null => none
+           | some (.str tn) => r.find tn
+           | some _ => r.find []) with
+    | some c =>
+      -- `rv := reflect.New(c.rtype); r.recomp(v, rv); return rv.Interface()`
+      match rec r 2 j c.rtype none with
+      | ⟨.ok v, r'⟩ => ⟨.ok (.iface (.ptr c.rtype) (.ptr v)), r'⟩
+      | st => st
+    | none =>
+      match stepKvs (fun r' x => rec r' 0 x .iface none) r kvs [] with
+      | ((some ms, _), r') => ⟨.ok (.iface (.map .iface) (.map ms)), r'⟩
+      | ((none, s), r') => ⟨s, r'⟩
+  | _ => ⟨.outside, r⟩
+
+def recBytes (r : Registry) (j : JV) : Step :=
+  match j with
+  | .arr xs =>
+    match stepList (fun r' x => ⟨scalarSlot (.int 6) x none, r'⟩) r xs [] with
+    | ((some vs, _), r') => ⟨.ok (.bytes (vs.map fun v => match v with | .int i => i.toNat.toUInt8 | _ => 0)), r'⟩
+    | ((none, s), r') => ⟨s, r'⟩
+  | _ => ⟨.panic, r⟩
+
+def recSlice (rec : Rec) (r : Registry) (e : GoType) (j : JV) : Step :=
+  match j with
+  | .arr xs =>
+    match stepList (fun r' x =>
+        match e with
+        | .ptr pe => ptrStep rec r' x pe
+        | _ => rec r' 2 x e none) r xs [] with
+    | ((some vs, _), r') => ⟨.ok (.slice vs), r'⟩
+    | ((none, s), r') => ⟨s, r'⟩
+  | _ => ⟨.panic, r⟩
+
+def recArray (rec : Rec) (r : Registry) (n : Nat) (e : GoType) (j : JV) : Step :=
+  match j with
+  | .arr xs =>
+    match stepList (fun r' x => rec r' 2 x e none) r (xs.take n) [] with
+    | ((some vs, _), r') => ⟨.ok (.arr (vs ++ List.replicate (n - vs.length) (zeroVal fuelZ e))), r'⟩
+    | ((none, s), r') => ⟨s, r'⟩
+  | _ => ⟨.panic, r⟩
+
+def recMap (rec : Rec) (r : Registry) (e : GoType) (j : JV) : Step :=
+  match j with
+  | .null => ⟨.ok .nilMap, r⟩
+  | .obj kvs =>
+    match e with
+    | .iface =>
+      -- `rv.SetMapIndex(k, reflect.ValueOf(r.recompAny(m)))`: a nil datum sets nothing
+      match stepKvs (fun r' x => rec r' 0 x .iface none) r kvs [] with
+      | ((some ms, _), r') => ⟨.ok (.map (ms.filter fun kv => match kv.2 with | .nilIface => false | _ => true)), r'⟩
+      | ((none, s), r') => ⟨s, r'⟩
+    | .ptr pe =>
+      match stepKvs (fun r' x => ptrStep rec r' x pe) r kvs [] with
+      | ((some ms, _), r') => ⟨.ok (.map ms), r'⟩
+      | ((none, s), r') => ⟨s, r'⟩
+    | _ =>
+      match stepKvs (fun r' x => rec r' 1 x e none) r kvs [] with
+      | ((some ms, _), r') => ⟨.ok (.map ms), r'⟩
+      | ((none, s), r') => ⟨s, r'⟩
+  | _ => ⟨.panic, r⟩
+
+def recStruct (cf : ComposerFor) (rec : Rec) (r : Registry) (name pkg : Bytes) (fs : List (FieldHdr × GoType)) (j : JV) : Step :=
+  match j with
+  | .obj vm =>
+    match cf r name pkg fs with
+    | (none, r') => ⟨.panic, r'⟩
+    | (some c, r') =>
+      stepFields (fun r'' m ft e => rec r'' 2 m ft (some e)) (.struct name pkg fs) vm r' c.indexes
+        (zeroVal fuelZ (.struct name pkg fs))
+  | _ => ⟨.panic, r⟩
+
+/-- one level of `recompAny` / `recomp` / `setValue`, the recursive calls being `rec` -/
+def recBody (cf : ComposerFor) (ck : Bytes) (rec : Rec) : Rec := fun r mode j t sf =>
+  if mode = 0 then recAny ck rec r j
+  else if mode = 1 && isNull j then ⟨.ok (zeroVal fuelZ t), r⟩
+  else
+    match t with
+    | .iface =>
+      -- `v = r.recompAny(v); rv.Set(reflect.ValueOf(v))`: a nil datum panics
+      if isNull j then ⟨.panic, r⟩ else rec r 0 j .iface none
+    | .ptr e =>
+      -- setValue: `ev := reflect.New(elem); r.recomp(v, ev); rv.Set(ev)`
+      ptrStep rec r j e
+    | .bytes => recBytes r j
+    | .slice e => recSlice rec r e j
+    | .array n e => recArray rec r n e j
+    | .map e => recMap rec r e j
+    | .struct name pkg fs => recStruct cf rec r name pkg fs j
+    | _ => ⟨scalarSlot t j sf, r⟩
+
+/-- the whole of it, by fuel; `cf f` is the composer lookup (with `f` fuel for a registration) -/
+def recompG (cf : Nat → ComposerFor) (ck : Bytes) : Nat → Rec
+  | 0 => fun r _ _ _ _ => ⟨.outside, r⟩
+  | f + 1 => recBody (cf f) ck (recompG cf ck f)
+
+def recompV (bareName : Bool) (ck : Bytes) : Nat → Rec := recompG (composerFor bareName) ck
 
 /-- what the recomposer has seen -/
 inductive Event where
@@ -481,7 +534,7 @@ inductive Event where
 def fuelR : Nat := 64
 
 def playEvent (bareName : Bool) (ck : Bytes) (r : Registry) : Event → Registry
-  | .register t => (registerT fuelR r t).1
+  | .register t => (registerT (!bareName) fuelR r t).reg
   | .recompose t j => (recompV bareName ck 256 r 1 j t none).reg
 
 /-- the registry after a history -/
